@@ -793,4 +793,318 @@ theorem runObs_ok {env : Env} (hf : env.fixed = true) :
         exact ih _ (h2 hp) o ho
       · simp [hp] at ho
 
+/-! ### reachable states -/
+
+theorem run_panicked {env : Env} : ∀ (ops : List Op) (s : State), s.panicked = true →
+    (run env s ops).panicked = true := by
+  intro ops
+  induction ops with
+  | nil => intro s h; exact h
+  | cons o os ih =>
+    intro s h
+    have : step env s o = s := by unfold step; simp [h]
+    simp only [run, this]
+    exact ih s h
+
+theorem run_inv {env : Env} (hf : env.fixed = true) : ∀ (ops : List Op) (s : State), Inv env s →
+    (run env s ops).panicked = false → Inv env (run env s ops) := by
+  intro ops
+  induction ops with
+  | nil => intro s inv _; exact inv
+  | cons o os ih =>
+    intro s inv hnp
+    simp only [run] at hnp ⊢
+    cases hp : (step env s o).panicked
+    · exact ih _ ((step_obs hf inv o).2 hp) hnp
+    · rw [run_panicked os _ hp] at hnp; cases hnp
+
+theorem run_append {env : Env} : ∀ (ops : List Op) (s : State) (o : Op),
+    run env s (ops ++ [o]) = step env (run env s ops) o := by
+  intro ops
+  induction ops with
+  | nil => intro s o; rfl
+  | cons x xs ih => intro s o; simp only [List.cons_append, run]; exact ih _ o
+
+/-- with the Start/Close discipline every successful start is matched by exactly one close, except
+the one that is still running -/
+theorem discipline_balance (a : Nat) : ∀ h : Hist, discipline h = true →
+    okStarts a h = stops a h + (running a h).toNat := by
+  intro h
+  induction h with
+  | nil => intro _; simp [okStarts, stops, running]
+  | cons it h ih =>
+    intro hd
+    cases it with
+    | op o =>
+      have := ih (by simpa [discipline] using hd)
+      simp only [okStarts, stops, running]; exact this
+    | start a' r =>
+      simp only [discipline, Bool.and_eq_true, Bool.not_eq_true'] at hd
+      have := ih hd.2
+      by_cases hc : a' = a
+      · subst hc
+        simp only [hd.1, Bool.toNat_false, Nat.add_zero] at this
+        cases r <;> simp [okStarts, stops, running, this] <;> omega
+      · simp only [okStarts, stops, running, hc, false_and, if_false, Nat.zero_add]; exact this
+    | stop a' =>
+      simp only [discipline, Bool.and_eq_true] at hd
+      have := ih hd.2
+      by_cases hc : a' = a
+      · subst hc
+        simp only [hd.1, Bool.toNat_true] at this
+        simp only [okStarts, stops, running, if_true, Bool.toNat_false]; omega
+      · simp only [okStarts, stops, running, hc, if_false, Nat.zero_add]; exact this
+
+/-- no `deactivate` of a registered element can panic -/
+theorem deactivate_defined {env : Env} {s : State} (inv : Inv env s) :
+    ∀ e ∈ s.reg, deactivate env e s.hist ≠ none := by
+  intro e he
+  obtain ⟨_, h2, _, _⟩ := inv.g.el e he
+  unfold deactivate
+  split
+  · next hact => rw [h2.mp hact]; simp
+  · simp
+
+/-- registering another instance of an address whose registered instance is running changes
+nothing and calls nothing -/
+theorem register_second_instance {env : Env} {s : State} (inv : Inv env s) {a a' : Nat}
+    (haddr : (env.cfg a').addr = (env.cfg a).addr) (hrun : running a s.hist = true) :
+    step env s (.register a') = { s with hist := .op (.register a') :: s.hist } := by
+  obtain ⟨x, hx, hxa⟩ := inv.g.runIn a hrun
+  obtain ⟨_, _, h3, _⟩ := inv.g.el x hx
+  have hact : x.ttl < 0 := h3.mpr (by rw [hxa]; exact hrun)
+  have hnp : ¬ (s.panicked = true) := by simp [inv.np]
+  unfold step
+  rw [if_neg hnp]
+  simp only [register]
+  split
+  · rfl
+  · cases hl : lookup env (env.cfg a').addr s.reg with
+    | none =>
+      exact absurd (by simp [addrOf, hxa, haddr]) (lookup_none hl x hx)
+    | some e =>
+      obtain ⟨hea, l1, l2, hreg⟩ := lookup_some hl
+      have : e = x := by
+        have hn := inv.g.nodup
+        rw [hreg] at hn hx
+        rcases mem_mid.mp hx with h | h
+        · exact h.symm
+        · exact absurd (by rw [hea]; simp [addrOf, hxa, haddr] : addrOf env x = addrOf env e)
+            (pw_mid (fun _ _ h => Ne.symm h) hn x h)
+      subst this
+      simp [hact]
+
+/-! ### one failing adapter alone: exact attempt counts -/
+
+theorem step_tick_single {env : Env} (hf : env.fixed = true) {s : State} {a t : Nat}
+    (hreg : s.reg = [⟨a, (t : Int), .absent⟩]) (hc : s.closed = false) (hp : s.panicked = false)
+    (hs : env.script a (startCount a s.hist) = .failRetry) :
+    step env s .tick =
+      if t = 0 ∧ (env.cfg a).permanent = false then { s with reg := [], hist := .op .tick :: s.hist }
+      else { s with reg := [⟨a, ((t - 1 : Nat) : Int), .absent⟩],
+                    hist := .start a .failRetry :: .op .tick :: s.hist } := by
+  have hcnt : startCount a (.op .tick :: s.hist) = startCount a s.hist := by simp [startCount]
+  unfold step tick
+  simp only [hp, hc, Bool.false_eq_true, if_false, hreg, tickList, activate_eq env hf]
+  have h0 : ¬ ((t : Int) < 0) := by omega
+  simp only [h0, if_false, false_or, hcnt, hs]
+  by_cases hcond : t = 0 ∧ (env.cfg a).permanent = false
+  · have : (t : Int) = 0 ∧ (env.cfg a).permanent = false := ⟨by omega, hcond.2⟩
+    simp [hcond]
+  · have : ¬ ((t : Int) = 0 ∧ (env.cfg a).permanent = false) := by
+      intro h; exact hcond ⟨by omega, h.2⟩
+    simp only [this, hcond, if_false]
+    simp [afterStart]
+    split <;> omega
+
+theorem step_register_fresh {env : Env} (hf : env.fixed = true) {a : Nat}
+    (hs : env.script a 0 = .failRetry) :
+    step env {} (.register a) =
+      if env.budget = 0 ∧ (env.cfg a).permanent = false then
+        { hist := [.op (.register a)] }
+      else { reg := [⟨a, ((env.budget - 1 : Nat) : Int), .absent⟩],
+             hist := [.start a .failRetry, .op (.register a)] } := by
+  unfold step register
+  simp only [Bool.false_eq_true, if_false, lookup, List.find?_nil, refused, List.any_nil,
+    Bool.and_false, activate_eq env hf]
+  have h0 : ¬ ((env.budget : Int) < 0) := by omega
+  simp only [h0, false_or, startCount, hs]
+  by_cases hcond : env.budget = 0 ∧ (env.cfg a).permanent = false
+  · have : (env.budget : Int) = 0 ∧ (env.cfg a).permanent = false := ⟨by omega, hcond.2⟩
+    simp [hcond]
+  · have : ¬ ((env.budget : Int) = 0 ∧ (env.cfg a).permanent = false) := by
+      intro h; exact hcond ⟨by omega, h.2⟩
+    simp only [this, hcond, if_false]
+    simp [afterStart]
+    split <;> omega
+
+theorem step_tick_empty {env : Env} {s : State} (hreg : s.reg = []) (hp : s.panicked = false) :
+    step env s .tick = { s with hist := .op .tick :: s.hist } := by
+  unfold step tick
+  simp only [hp, Bool.false_eq_true, if_false, hreg, tickList]
+  split <;> simp
+
+theorem register_ticks_eq (a : Nat) (n : Nat) :
+    (Op.register a :: List.replicate (n + 1) Op.tick) =
+      (Op.register a :: List.replicate n Op.tick) ++ [Op.tick] := by
+  rw [List.replicate_succ']; rfl
+
+/-- a non-permanent adapter that always fails retryably: `register` then `n` retry ticks -/
+theorem budget_run {env : Env} (hf : env.fixed = true) {a : Nat}
+    (hnp : (env.cfg a).permanent = false) (hs : ∀ k, env.script a k = .failRetry) :
+    ∀ n : Nat,
+      (run env {} (.register a :: List.replicate n .tick)).panicked = false ∧
+      (run env {} (.register a :: List.replicate n .tick)).closed = false ∧
+      startCount a (run env {} (.register a :: List.replicate n .tick)).hist = min (n + 1) env.budget ∧
+      (run env {} (.register a :: List.replicate n .tick)).reg =
+        (if n < env.budget then [⟨a, ((env.budget - (n + 1) : Nat) : Int), .absent⟩] else []) := by
+  intro n
+  induction n with
+  | zero =>
+    simp only [List.replicate_zero, run, step_register_fresh hf (hs 0), hnp, and_true]
+    by_cases hb : env.budget = 0
+    · simp [hb, startCount]
+    · have : 0 < env.budget := by omega
+      simp [hb, startCount, this]; omega
+  | succ n ih =>
+    obtain ⟨h1, h2, h3, h4⟩ := ih
+    rw [register_ticks_eq, run_append]
+    generalize run env {} (.register a :: List.replicate n .tick) = s at h1 h2 h3 h4
+    by_cases hlt : n < env.budget
+    · simp only [hlt, if_true] at h4
+      rw [step_tick_single hf h4 h2 h1 (hs _)]
+      by_cases ht : env.budget - (n + 1) = 0
+      · have : ¬ (n + 1 < env.budget) := by omega
+        simp only [ht, hnp, and_self, if_true, h1, h2, startCount, h3, this, if_false, true_and]
+        exact ⟨by omega, trivial⟩
+      · have : n + 1 < env.budget := by omega
+        simp only [ht, false_and, if_false, h1, h2, startCount, h3, this, if_true, true_and]
+        refine ⟨by omega, ?_⟩
+        congr 3
+    · simp only [hlt, if_false] at h4
+      rw [step_tick_empty h4 h1]
+      have : ¬ (n + 1 < env.budget) := by omega
+      simp only [h1, h2, startCount, h3, h4, this, if_false, true_and, and_true]
+      omega
+
+/-- a permanent adapter that always fails retryably: `register` then `n` retry ticks -/
+theorem permanent_run {env : Env} (hf : env.fixed = true) {a : Nat}
+    (hperm : (env.cfg a).permanent = true) (hs : ∀ k, env.script a k = .failRetry) :
+    ∀ n : Nat,
+      (run env {} (.register a :: List.replicate n .tick)).panicked = false ∧
+      (run env {} (.register a :: List.replicate n .tick)).closed = false ∧
+      startCount a (run env {} (.register a :: List.replicate n .tick)).hist = n + 1 ∧
+      (run env {} (.register a :: List.replicate n .tick)).reg =
+        [⟨a, ((env.budget - (n + 1) : Nat) : Int), .absent⟩] := by
+  intro n
+  induction n with
+  | zero =>
+    simp [run, step_register_fresh hf (hs 0), hperm, startCount]
+  | succ n ih =>
+    obtain ⟨h1, h2, h3, h4⟩ := ih
+    rw [register_ticks_eq, run_append]
+    generalize run env {} (.register a :: List.replicate n .tick) = s at h1 h2 h3 h4
+    rw [step_tick_single hf h4 h2 h1 (hs _)]
+    simp only [hperm, Bool.true_eq_false, and_false, if_false, h1, h2, startCount, h3, if_true,
+      true_and]
+    refine ⟨by omega, ?_⟩
+    congr 2
+
+/-! ### panics: only a second `Close` -/
+
+theorem step_closed_of_ne {env : Env} (s : State) (o : Op) (ho : o ≠ .close) :
+    (step env s o).closed = s.closed := by
+  have hreg : ∀ (s : State) (a : Nat), (register env s a).closed = s.closed := by
+    intro s a
+    unfold register
+    repeat' split
+    all_goals first | rfl | (simp only []; split <;> rfl)
+  have hunreg : ∀ (s : State) (a : Nat), (unregister env s a).closed = s.closed := by
+    intro s a
+    unfold unregister
+    repeat' split
+    all_goals rfl
+  have hrest : ∀ (s : State) (a : Nat), (restart env s a).closed = s.closed := by
+    intro s a
+    unfold restart
+    simp only []
+    split
+    · exact hunreg s a
+    · rw [hreg, hunreg]
+  unfold step
+  split
+  · rfl
+  · cases o with
+    | register a => exact hreg _ a
+    | unregister a => exact hunreg _ a
+    | restart a => exact hrest _ a
+    | tick => simp only [tick]; split <;> rfl
+    | peerDisappeared a =>
+      simp only
+      split
+      · rfl
+      · exact hrest _ a
+    | close => exact absurd rfl ho
+
+theorem run_single_close {env : Env} (hf : env.fixed = true) :
+    ∀ (ops : List Op) (s : State), Inv env s →
+      (s.closed = false ∧ ops.count .close ≤ 1 ∨ s.closed = true ∧ ops.count .close = 0) →
+      (run env s ops).panicked = false := by
+  intro ops
+  induction ops with
+  | nil => intro s inv _; exact inv.np
+  | cons o os ih =>
+    intro s inv hcnt
+    simp only [run]
+    by_cases ho : o = .close
+    · subst ho
+      simp only [List.count_cons_self] at hcnt
+      rcases hcnt with ⟨hc, hle⟩ | ⟨_, h0⟩
+      · have inv' := step_inv hf inv .close (by simp [hc])
+        exact ih _ inv' (.inr ⟨step_close_closed inv.np, by omega⟩)
+      · omega
+    · have inv' := step_inv hf inv o (by simp [ho])
+      have hcl := step_closed_of_ne (env := env) s o ho
+      have hco : (o :: os).count .close = os.count .close := by
+        rw [List.count_cons]; simp [ho]
+      rw [hco] at hcnt
+      exact ih _ inv' (by rw [hcl]; exact hcnt)
+
+theorem running_of_not_mem (a : Nat) : ∀ h : Hist, a ∉ adapters h → running a h = false := by
+  intro h
+  induction h with
+  | nil => intro _; rfl
+  | cons it h ih =>
+    intro hn
+    cases it with
+    | op o => simp only [adapters] at hn; simpa [running] using ih hn
+    | start a' r =>
+      simp only [adapters, List.mem_cons, not_or] at hn
+      have : a' ≠ a := fun h => hn.1 h.symm
+      simpa [running, this] using ih hn.2
+    | stop a' =>
+      simp only [adapters, List.mem_cons, not_or] at hn
+      have : a' ≠ a := fun h => hn.1 h.symm
+      simpa [running, this] using ih hn.2
+
+theorem balanced_of_allStopped {h : Hist} (hd : discipline h = true) (hs : allStopped h = true)
+    (a : Nat) : okStarts a h = stops a h := by
+  have hr : running a h = false := by
+    by_cases hm : a ∈ adapters h
+    · simp only [allStopped, List.all_eq_true, Bool.not_eq_true'] at hs
+      exact hs a hm
+    · exact running_of_not_mem a h hm
+  have := discipline_balance a h hd
+  simpa [hr] using this
+
+/-- the clauses of `obsOk` for an operation that returned -/
+theorem obsOk_clauses {cfg : Nat → Cfg} {b : Nat} {o : Obs} (h : obsOk cfg b o = true)
+    (hok : o.outcome = .ok) :
+    activeIffStarted cfg o = true ∧ discipline o.hist = true ∧ closeStops o = true ∧
+      budgetRespected cfg b o.hist = true ∧ permanentRetried cfg o = true ∧
+      singleInstance cfg o.hist = true := by
+  simp only [obsOk, hok, bne_self_eq_false, Bool.false_or, Bool.and_eq_true] at h
+  obtain ⟨_, ⟨⟨⟨⟨h1, h2⟩, h3⟩, h4⟩, h5⟩, h6⟩ := h
+  exact ⟨h1, h2, h3, h4, h5, h6⟩
+
 end Dtn7.ClaManager
